@@ -191,6 +191,16 @@ impl C11 {
                 self.probe(cx, &splice(a, b, r), "token-fault");
                 cx.count("fault.literal");
             }
+            // a number replaced by its wrap-around twins: the same value plus or minus 2^32 / 2^64 (a check done on a narrowed copy of a
+            // number accepts them where it accepts the number itself), with and without a fractional tail of zeros
+            let whole: &str = if tok.contains('.') { tok.trim_end_matches('0').trim_end_matches('.') } else { tok };
+            if let Ok(v) = whole.parse::<i128>() {
+                for twin in [v + (1i128 << 32), v - (1i128 << 32), v + (2i128 << 32), v + (1i128 << 64), v - (1i128 << 64)] {
+                    self.probe(cx, &splice(a, b, &twin.to_string()), "token-fault");
+                    self.probe(cx, &splice(a, b, &format!("{}.000", twin)), "token-fault");
+                    cx.count("fault.wraparound-twin");
+                }
+            }
         }
     }
     fn nonascii_faults(&self, cx: &mut Cx, text: &str) {
